@@ -366,11 +366,11 @@ def callList (fn : String) (args : List Expr) (ctx : Ctx) : Option R :=
     let sep := (strArg (← a 1)).getD [',', ' ']
     match (← a 0) with
     | some (.arr l) =>
-      let rec joinGo (acc : Str) : List JV → Option Str
+      let rec joinGo (first : Bool) (acc : Str) : List JV → Option Str
         | [] => some acc
-        | .str s :: rest => joinGo (if acc.isEmpty then acc ++ s else acc ++ sep ++ s) rest
+        | .str s :: rest => joinGo false (if first then acc ++ s else acc ++ sep ++ s) rest
         | _ :: _ => none
-      .ok ((joinGo [] l).map JV.str)
+      .ok ((joinGo true [] l).map JV.str)
     | _ => .ok none
   | "sum" => some do
     match (← a 0) with
